@@ -360,8 +360,11 @@ where
             .save_welcome(welcome)
             .map_err(|e| Error::Welcome(e.to_string()))?;
 
-        // Update the group to inactive
-        if let Some(mut group) = self.get_group(&mls_group_id.into())? {
+        // Update the group to inactive -- unless the user is already an active member of it
+        // (a duplicate of an invitation that was accepted): declining never disables a joined group
+        if let Some(mut group) = self.get_group(&mls_group_id.into())?
+            && group.state != group_types::GroupState::Active
+        {
             group.state = group_types::GroupState::Inactive;
             self.storage()
                 .save_group(group)
